@@ -321,6 +321,25 @@ example : R.Sendable [98] [{ name := [233], value := [118] }] ∧ R.headerSize {
   refine ⟨?_, by decide⟩
   constructor <;> decide
 
+/-- `multipart_roundtrip_prefilled`: the same with pre-filled `arguments` / `files` dictionaries (what `parse_multipart_form_data`
+    is handed when the query string already produced arguments): the parts are appended to what is there, in order —
+    the result is the fold of `Spec.expected`'s step over the pre-filled result.  Both parameter styles. -/
+theorem multipart_roundtrip_prefilled (cfg : Config) (b : Bytes) (parts : List Spec.Part) (f : Form)
+    (hwf : WellFormed cfg b parts) (hlf : 10 ∉ b) :
+    parseMultipart cfg b (Spec.encodeMultipart b parts) f = .ok (parts.foldl stepOf f) := by
+  have hs := hwf.sendable hlf
+  rw [parseMultipart_encoded_eq cfg b parts f hwf.enabled hs.boundary_plain hs.boundary_lf hs.fresh,
+    if_neg (Nat.not_lt.mpr hwf.count)]
+  exact foldlM_contents cfg parts f hs.partsOK (fun p hp => by rw [← headerSize_eq]; exact hwf.header_size p hp)
+
+theorem multipart_roundtrip_2231_prefilled (cfg : Config) (b : Bytes) (parts : List Spec.Part) (f : Form)
+    (hwf : R.WellFormed cfg b parts) (hlf : 10 ∉ b) :
+    parseMultipart cfg b (Spec.encodeMultipart2231 b parts) f = .ok (parts.foldl stepOf f) := by
+  have hs := hwf.sendable hlf
+  rw [R.parseMultipart_encoded_eq cfg b parts f hwf.enabled hs.boundary_plain hs.boundary_lf hs.fresh,
+    if_neg (Nat.not_lt.mpr hwf.count)]
+  exact R.foldlM_contents cfg parts f hs.partsOK (fun p hp => by rw [← R.headerSize_eq]; exact hwf.header_size p hp)
+
 /-! ### limits -/
 
 /-- the pieces `parse_multipart_form_data` iterates over, when there is a final boundary -/
